@@ -913,7 +913,7 @@ impl Mods {
     }
 }
 
-const KNOB_GROUPS: usize = 14;
+const KNOB_GROUPS: usize = 15;
 
 fn reset_knob(l: &mut Layout, k: usize) {
     let p = Layout::plain();
@@ -942,7 +942,11 @@ fn reset_knob(l: &mut Layout, k: usize) {
             l.pct_t_n = 0;
         }
         11 => l.pct_write_blank = 100,
-        12 => l.pct_xf_omit_general = 0,
+        12 => {
+            l.pct_xf_omit_general = 0;
+            l.pct_row_style = 0;
+        }
+        13 => l.rel_decl = xlsxw::RelDecl::Workbook,
         _ => {
             l.pct_styles_noise = 0;
             l.pct_attr_shuffle = 0;
@@ -1060,6 +1064,8 @@ fn file_case(seed: u64, rep: &mut Report, drv: &mut Driver) {
     rep.count(&format!("knob:dim:{:?}", layout.dimension));
     rep.count(&format!("knob:xf-omit-general:{}", layout.pct_xf_omit_general));
     rep.count(&format!("knob:styles-noise:{}", layout.pct_styles_noise));
+    rep.count(&format!("knob:row-style:{}", layout.pct_row_style));
+    rep.count(&format!("knob:rel-decl:{:?}", layout.rel_decl));
     for sh in &book.sheets {
         for c in sh.cells.values() {
             rep.count(match c.value {
@@ -1163,6 +1169,32 @@ fn corpus_case(name: &str) -> Option<(XlsxBook, Layout)> {
             sh.set(0, 4, XCell::num("3").with_style(1));
             l.pct_xf_omit_general = 100;
         }
+        // seeded change C01-m6: a row formatted as a whole does not lend its style to cells without `s`
+        "row-style-date" => {
+            book.cell_xfs = vec![0, 14, 46];
+            sh.set(2, 0, XCell::num("44197"));
+            sh.set(2, 1, XCell::num("1.5").with_style(0));
+            sh.set(2, 2, XCell::num("0.25").with_style(2));
+            sh.set(3, 0, XCell::num("7"));
+            l.pct_row_style = 100;
+            l.row_style_count = 0;
+            l.seed = 3;
+        }
+        // seeded change C01-m8: the relationships prefix may be declared on <sheets>, on <sheet>, or differently on both
+        "rel-decl-sheets" => {
+            sh.set(0, 0, XCell::num("1"));
+            l.rel_decl = xlsxw::RelDecl::Sheets;
+            l.rel_prefix = "rel".into();
+        }
+        "rel-decl-sheet" => {
+            sh.set(0, 0, XCell::num("1"));
+            l.rel_decl = xlsxw::RelDecl::Sheet;
+            l.rel_prefix = "q".into();
+        }
+        "rel-decl-split" => {
+            sh.set(0, 0, XCell::num("1"));
+            l.rel_decl = xlsxw::RelDecl::Split;
+        }
         // the structure around the format table is not the format table
         "styles-noise" => {
             book.num_fmts = custom_fmts();
@@ -1191,7 +1223,7 @@ fn corpus_case(name: &str) -> Option<(XlsxBook, Layout)> {
 
 const CORPUS: &[&str] = &[
     "d20-empty-si", "d21-prefixed-rich", "d21-prefixed-rich-inline", "d22-prefixed-workbookpr", "d23-rel-prefix", "implicit-refs", "corners", "blank-only",
-    "upper-parts", "xf-without-numfmtid", "styles-noise", "raw:row-cursor-overflow", "raw:col-cursor-overflow", "raw:sst-index-out-of-range", "raw:reversed-dimension", "raw:overlong-ref",
+    "upper-parts", "xf-without-numfmtid", "styles-noise", "row-style-date", "rel-decl-sheets", "rel-decl-sheet", "rel-decl-split", "raw:row-cursor-overflow", "raw:col-cursor-overflow", "raw:sst-index-out-of-range", "raw:reversed-dimension", "raw:overlong-ref",
 ];
 
 /// hand-written worksheet parts (events) for the malformed-input regressions
